@@ -55,6 +55,12 @@ func (w *writer) emit(e Ev) {
 	w.mu.Unlock()
 }
 
+func (w *writer) flush() {
+	w.mu.Lock()
+	w.w.Flush()
+	w.mu.Unlock()
+}
+
 // emitAll writes a group of events contiguously
 func (w *writer) emitAll(es []Ev) {
 	w.mu.Lock()
